@@ -113,6 +113,11 @@ def main(tier, seed, replay=None):
         with np.errstate(all="ignore"):
             e_pc = np.exp(np.clip(log_likelihood(pc, X).reshape(-1).astype(np.float64), -700, 50))
             e_clt = np.exp(np.clip(clt.log_likelihood(X[:, scope]).reshape(-1).astype(np.float64), -700, 50))
+        if not bad and not (np.all(np.isfinite(e_pc)) and np.all(np.isfinite(e_clt))):
+            i = int(np.argmin(np.isfinite(e_pc) & np.isfinite(e_clt)))
+            bad = dict(what="the tree or the converted circuit returns a non-finite value on a query", row=sorted(rows[i].items()),
+                       pc=repr(float(e_pc[i])), clt=repr(float(e_clt[i])))
+        e_pc = np.where(np.isfinite(e_pc), e_pc, -1.0); e_clt = np.where(np.isfinite(e_clt), e_clt, -1.0)     # sentinels for the literals
         if not bad and not np.allclose(e_pc, e_clt, rtol=2e-4, atol=1e-9):
             i = int(np.argmax(np.abs(e_pc - e_clt)))
             bad = dict(what="converted circuit and tree disagree", row=sorted(rows[i].items()), pc=float(e_pc[i]), clt=float(e_clt[i]))
